@@ -481,6 +481,94 @@ func (c *c18Run) badResource(kind c18PointKind, badKey string, opt c18Opt) {
 	r.Sample(func() any { return cas })
 }
 
+// bystander: something the exporter cannot expose -- a metric whose Data it does not know, a data
+// point with an attribute value that is not valid UTF-8, a scope whose name is not valid UTF-8 --
+// comes BEFORE a perfectly valid one in what the reader collected. The scrape must not panic, the
+// registry accepts the result, and the valid instrument / point / scope is exposed with the
+// aggregated value on every scrape (the second and third go through the exporter's caches).
+func (c *c18Run) bystander(kind c18PointKind, variant string) {
+	r := c.r
+	cas := map[string]any{"kind": kind.id, "variant": variant}
+	saved := model.NameValidationScheme                   //nolint:staticcheck
+	model.NameValidationScheme = model.UTF8Validation     //nolint:staticcheck
+	defer func() { model.NameValidationScheme = saved }() //nolint:staticcheck
+	c.handled = c.handled[:0]
+	enum.Guard("process-death|scrape|bystander|"+kind.id, cas, r.Here())
+	defer enum.Unguard()
+	good := kind.letters[0].add(kind.empty(), attribute.NewSet(attribute.String("k", "v")))
+	valid := metricdata.Metrics{Name: "m", Description: "d", Data: good}
+	var sm []metricdata.ScopeMetrics
+	switch variant {
+	case "unknown-data-first":
+		sm = []metricdata.ScopeMetrics{{Scope: instrumentation.Scope{Name: "sa"}, Metrics: []metricdata.Metrics{{Name: "u", Description: "d"}, valid}}}
+	case "bad-value-point-first":
+		both := kind.letters[0].add(kind.empty(), attribute.NewSet(attribute.String("k", "bad\xffvalue")))
+		both = kind.letters[0].add(both, attribute.NewSet(attribute.String("k", "v")))
+		sm = []metricdata.ScopeMetrics{{Scope: instrumentation.Scope{Name: "sa"}, Metrics: []metricdata.Metrics{{Name: "m", Description: "d", Data: both}}}}
+	case "bad-scope-first":
+		sm = []metricdata.ScopeMetrics{
+			{Scope: instrumentation.Scope{Name: "bad\xffscope"}, Metrics: []metricdata.Metrics{{Name: "other", Description: "d", Data: good}}},
+			{Scope: instrumentation.Scope{Name: "sa"}, Metrics: []metricdata.Metrics{valid}},
+		}
+	}
+	prod := &c18Producer{sm: sm}
+	reg := &capturingRegisterer{Registry: prometheus.NewRegistry()}
+	exp, err := New(WithRegisterer(reg), WithProducer(prod))
+	if err != nil || reg.got == nil {
+		r.FailHere("new|exporter construction failed", cas, "New: %v", err)
+		return
+	}
+	mp := metric.NewMeterProvider(metric.WithReader(exp), metric.WithResource(resource.NewSchemaless(c18ResourceKVs...)))
+	defer func() { _ = mp.Shutdown(context.Background()) }()
+	pts, _, _ := refPoints(valid)
+	wantFam := refNames("m", "", refNaming{counter: kind.counter})[0]
+	for i := 0; i < 3; i++ {
+		what := []string{"first scrape", "second scrape", "third scrape"}[i]
+		r.Eval()
+		ms, panicked := collectDirect(reg.got)
+		if panicked != nil {
+			r.FailHere("bystander|panic|Collect|"+variant, cas, "%s: collector.Collect panicked: %v", what, panicked)
+			return
+		}
+		for _, m := range ms {
+			if m == nil {
+				r.FailHere("bystander|nil metric sent to the registry|"+variant, cas, "%s: Collect sent a nil prometheus.Metric", what)
+				return
+			}
+		}
+		rr := prometheus.NewRegistry()
+		if err := rr.Register(replayCollector(ms)); err != nil {
+			r.FailHere("harness|replay registry", cas, "%v", err)
+			return
+		}
+		fams, err := rr.Gather()
+		if err != nil {
+			r.FailHere("bystander|gather-error|"+variant, cas, "%s: %v (errors handled by the exporter: %q)", what, err, c.handled)
+			return
+		}
+		found := false
+		for _, f := range fams {
+			if f.GetName() != wantFam {
+				continue
+			}
+			for _, m := range f.Metric {
+				kv := false
+				for _, l := range m.Label {
+					kv = kv || (l.GetName() == "k" && l.GetValue() == "v")
+				}
+				if _, v := actualValue(f, m); kv && v == pts[0].val {
+					found = true
+				}
+			}
+		}
+		if !found {
+			r.FailHere("bystander|series missing or wrong|"+variant+"|"+kind.id, cas, "%s: %s{k=\"v\"} of scope sa is not exposed with the aggregated value although only its neighbour cannot be exposed (errors handled by the exporter: %q)", what, wantFam, c.handled)
+		}
+	}
+	r.Outcome(fmt.Sprint(kind.id, variant))
+	r.Sample(func() any { return cas })
+}
+
 func show18(s string) string { return fmt.Sprintf("%q", s) }
 
 func keysOf(m map[string]refValue) []string {
@@ -497,7 +585,7 @@ func TestVerifC18Points(t *testing.T) {
 	for _, k := range c18PointKinds {
 		jobs = append(jobs, "points/"+k.id)
 	}
-	jobs = append(jobs, "two-scopes", "two-kinds", "bad-resource")
+	jobs = append(jobs, "two-scopes", "two-kinds", "bad-resource", "bystander")
 	enum.Jobs(jobs, func(job string) {
 		r := enum.Start("C18", "points")
 		defer r.Finish()
@@ -520,6 +608,18 @@ func TestVerifC18Points(t *testing.T) {
 						if r.Want() {
 							run.badResource(kind, k, opt)
 						}
+					}
+				}
+			}
+			return
+		}
+		if job == "bystander" {
+			vs := []string{"unknown-data-first", "bad-value-point-first", "bad-scope-first"}
+			r.Bound("bystander_variants", vs)
+			for _, kind := range c18PointKinds {
+				for _, v := range vs {
+					if r.Want() {
+						run.bystander(kind, v)
 					}
 				}
 			}
